@@ -550,6 +550,9 @@ theorem ni_runWith (special : SpecialFn) (mode : Mode) (c' : Nat) (sig : Sig) (r
     NI c X (runWith special mode c' sig raw fromScript) := by
   unfold runWith
   refine ni_getConn_bind c' (fun _ _ => rfl) (fun conn => ?_)
+  split
+  · -- refused in subscriber mode: a pure reply
+    exact NI.pure _
   refine NI.bind (ni_getDb _) (fun db => ?_)
   extract_lets gate
   clear_value gate
